@@ -55,7 +55,7 @@ func routerService() (protoreflect.ServiceDescriptor, []*MethodInfo) {
 
 var c06Literals = []string{"a", "b", "c", "v1"}
 var c06Vars = []string{"string_value", "recursive.string_value", "recursive.recursive.string_value"}
-var c06Pieces = []string{"x", "a", "b", "zz", "%25", "%2F", "%2f", "a%2Fb", "%3A", "%41", "a%20b", "+", "~", "%E6%97%A5", ".", "..", "%C3%A9", "a%3Ab", "%2525", "v1", "*", "%2A"}
+var c06Pieces = []string{"x", "a", "b", "zz", "%25", "%2F", "%2f", "a%2Fb", "%3A", "%41", "a%20b", "+", "~", "%E6%97%A5", ".", "..", "%C3%A9", "a%3Ab", "%2525", "v1", "*", "%2A", "1+1%3D2", "a+b%20c", "%2B+", "a:b%2Fc"}
 
 func genTemplate(r *rand.Rand) string {
 	n := 1 + r.IntN(4)
